@@ -58,6 +58,8 @@ class C06Runner:
 		self.ops = case['ops']
 		self.config = {**DEFAULT_CONFIG, **(case.get('config') or {})}
 		self.order = case.get('order') or list(self.pool['modules'])
+		# glob stratum: the target list comes from config.input_globs through the real include_module_paths (directory order, overlapping globs)
+		self.use_globs = bool(case.get('glob'))
 		self.proj = Project(self.pool, self.config, tag='c06')
 		self.versions: dict[str, str] = {}
 		self.violations: list[dict[str, Any]] = []
@@ -131,7 +133,7 @@ class C06Runner:
 	# -- one judged run
 
 	def run(self, force: bool, fault: dict[str, Any] | None = None, observe: Any = None) -> dict[str, Any]:
-		return self.proj.run(force=force, fault=fault, modules=self.order, versions=self.versions or None, observe=observe)
+		return self.proj.run(force=force, fault=fault, modules=None if self.use_globs else self.order, use_config_globs=self.use_globs, versions=self.versions or None, observe=observe)
 
 	def module_state_abstraction(self, pre_out: dict[str, str], out_b: dict[str, str]) -> str:
 		parts = []
@@ -399,6 +401,11 @@ class C06(Engine):
 				c([run_op(fault={'kind': 'eacces@open', 'pick': 0.5, 'count': 1}), run_op()])
 				c([run_op(fault={'kind': 'eacces@open', 'pick': 0.5, 'count': 2}), run_op()])
 				c([run_op(True), {'op': 'edit', 'm': top, 'v': 2}, run_op(fault={'kind': 'eacces@open', 'pick': 0.0, 'count': 2}), run_op()])
+		# glob stratum: targets listed by the real include_module_paths, with an overlapping glob (same target twice)
+		gp = pools.fixed_pool(1)
+		tops = sorted({m.split('.')[0] for m in gp['modules']})
+		gcfg = {'output_dirs': ['./out/fb'], 'input_globs': [f'{t}/**/*.py' for t in tops] + ['src/*.py']}
+		cases.append({'pool': gp, 'config': gcfg, 'glob': True, 'kind': 'canonical', 'ops': [run_op(), run_op(), {'op': 'edit', 'm': pools.core(gp)[-1], 'v': 1}, run_op(), {'op': 'delete-output', 'm': pools.core(gp)[0]}, run_op()]})
 		# a prefix rule and module paths that repeat the prefix further in (pkg/b.py, pkg/pkg/b.py): outputs must stay distinct
 		rng = random.Random(5)
 		for shape in ('pairs', 'chain4'):
@@ -423,6 +430,14 @@ class C06(Engine):
 		mods = pool['modules']
 		dirs = source_dirs(pool)
 		cfg = {'output_dirs': rng.choice(OUTPUT_FORMS)(dirs), 'output_language': rng.choice(['cpp:h', 'cpp', 'cpp:hpp'])}
+		use_globs = rng.random() < 0.25
+		if use_globs:
+			tops = sorted({m.split('.')[0] for m in mods})
+			globs = [f'{t}/**/*.py' for t in tops]
+			if rng.random() < 0.5:
+				globs.append(f'{rng.choice(tops)}/*.py')  # overlapping glob: the same target listed twice
+			rng.shuffle(globs)
+			cfg['input_globs'] = globs
 		w_reconf = rng.choice([0, 0.5, 1.2])
 		faulty = rng.random() < 0.4
 		w = {'edit': rng.uniform(1, 4), 'run': rng.uniform(2, 4), 'runf': rng.uniform(0.2, 1.5), 'del': rng.uniform(0, 1.2), 'up': rng.uniform(0, 0.8), 'touch': rng.uniform(0, 0.6)}
@@ -450,7 +465,7 @@ class C06(Engine):
 		order = list(mods)
 		if rng.random() < 0.4:
 			rng.shuffle(order)
-		return {'pool': pool, 'ops': ops, 'config': cfg, 'order': order, 'kind': 'seeded'}
+		return {'pool': pool, 'ops': ops, 'config': cfg, 'order': order, 'kind': 'seeded', 'glob': use_globs}
 
 	def execute(self, case: dict[str, Any]) -> dict[str, Any]:
 		return C06Runner(case).execute()
